@@ -301,8 +301,12 @@ func (w *vcWorld) open() error {
 
 func (w *vcWorld) close() {
 	if w.c != nil {
+		am := w.c.agentManager
 		w.c.Close()
 		w.c = nil
+		// Core.Close leaves the agent manager and its multiplexer running; with thousands of worlds per process their goroutines
+		// keep every closed Core (and its store's tables) reachable
+		defer func() { _ = am.Close() }()
 	}
 	if w.ag != nil {
 		// ends the mux child goroutine for this agent
